@@ -45,6 +45,7 @@ WfRecC(t, ss, n, ct) == [type |-> t, sigsize |-> ss, hdrsize |-> 0, body |-> n *
 WfRec(t, ss, n) == WfRecC(t, ss, n, "distinct")
 WfRecs == {WfRec("x509", ss, n) : ss \in {17, 48, 716, 1244}, n \in 1..3}
           \cup {WfRec("sha256", 48, n) : n \in 1..3} \cup {WfRec("extern", 17, n) : n \in 1..3}
+          \cup {WfRec("x509", 70016, 1)}                                                      \* one entry of 70 000 data bytes (more than 64 KiB)
           \cup {WfRec("sha256", 48, 0), WfRec("x509", 716, 0), WfRec("extern", 17, 0)}      \* emptied lists keep their SignatureSize
           \cup {WfRecC("x509", 716, 2, "dup"), WfRecC("sha256", 48, 2, "dup"), WfRecC("x509", 716, 1, "pem"), WfRecC("x509", 1244, 2, "pem")}
 WfStreams == {<<>>} \cup {<<a>> : a \in WfRecs} \cup {<<a, b>> : a \in WfRecs, b \in WfRecs}
